@@ -50,7 +50,7 @@ FIXED = [
     {"ts": True, "t0": 0, "pre": [["rel", 500, 1]], "progs": [[["dispose", 1]], [["now", 2]]], "bodies": {},
      "ticks": [500]},
     # two foreign threads, two calls each
-    {"ts": True, "t0": 0, "pre": [], "progs": [[["rel", 500, 1], ["dispose", 1]], [["rel", 1000, 2], ["dispose", 2]]],
+    {"ts": True, "t0": 0, "pre": [], "progs": [[["rel", 500, 1], ["dispose", 1]], [["rel", 1007, 2], ["dispose", 2]]],
      "bodies": {}, "ticks": [500, 500]},
 ]
 
@@ -65,7 +65,9 @@ def gen_case(rng):
         sched.append(a)
         if rng.random() < 0.45:
             return ["now", a]
-        return ["rel", rng.choice([0, 500, 1000, 1500]), a]
+        d = rng.choice([0, 500, 1000, 1500])
+        # asyncio leaves the order of timers with the same expiry undefined (heapq): keep expiries distinct
+        return ["rel", d + (7 * a if d else 0), a]
 
     def prog(n):
         p, mine = [], []
@@ -83,7 +85,6 @@ def gen_case(rng):
     for a in list(sched):
         if rng.random() < 0.3:
             bodies[str(a)] = [["dispose", rng.choice(sched)]] if rng.random() < 0.6 else [sched_op()]
-    # no more than two timers with the same expiry (heapq is not stable for three equal keys; the model is)
     ticks = [rng.choice([500, 500, 1000]) for _ in range(rng.choice([0, 1, 2, 3]))]
     return {"ts": ts, "t0": rng.choice([0, 5000]), "pre": pre, "progs": progs, "bodies": bodies, "ticks": ticks}
 
@@ -111,13 +112,13 @@ def run(chk):
     if not ok_st:
         chk.tie_broken("k3_time self-test failed", st_facts)
     bound = 2 if quick else 3
-    cases = list(FIXED) + [gen_case(chk.rng) for _ in range(24 if quick else 300)]
+    cases = list(FIXED) + [gen_case(chk.rng) for _ in range(40 if quick else 300)]
     coq_cases, coq_meta = [], []
     hist = {"coarse": 0, "fine": 0, "random": 0}
     distinct, nontrivial = set(), set()
     samples = []
     evals = 0
-    lim_fixed, lim = (60, 14) if quick else (3000, 300)
+    lim_fixed, lim = (80, 18) if quick else (3000, 300)
 
     def judge(case, r, fine, sched):
         nonlocal evals
@@ -200,9 +201,9 @@ def run(chk):
         trusted_extra=[
             "harness/k3.py + harness/k3_time.py (CLoop: asyncio.BaseEventLoop with a controlled selector and clock; "
             "controlled Future); self-test on every run",
-            "asyncio internals as modelled: FIFO _ready, timer heap (stable for equal expiry times in the model; heapq is "
-            "not for three or more equal keys -- such cases are not generated), Handle.cancel() = flag + cleared "
-            "callback, tests at pop and at run",
+            "asyncio internals as modelled: FIFO _ready, timer heap (asyncio leaves the order of timers with the same "
+            "expiry undefined; the model is stable, the generated cases keep expiries distinct), Handle.cancel() = "
+            "flag + cleared callback, tests at pop and at run",
             "harness/aiodrv.py: driver, line finder for the asyncio sources (fail-closed), Gallina printer, oracle"],
         assumptions=[
             "the loop does not start while a dispose() that found it not running is in progress (stated in the "
